@@ -12,7 +12,7 @@
    [sqrtf] is np.sqrt: any function with the defining property of the square root. *)
 From Coq Require Import Reals List Bool.
 From Verif Require Import Base.Num Base.Vec Base.VecR C08.Model C08.VecLemmas C08.Rules C08.Proofs
-  C08.ProxRules C08.Moreau C08.GradEq C08.Biconj C08.KL C08.ConjTables.
+  C08.ProxRules C08.Moreau C08.GradEq C08.Biconj C08.KL C08.ConjTables C08.Transfer.
 Import ListNotations.
 Local Open Scope R_scope.
 
@@ -141,3 +141,16 @@ Theorem cconj_is_generated_Q : forall (w : list QArith_base.Q) (e : @fexpr QArit
   constructible e -> cconj w e = interp w e.
 Proof. exact cconj_generated_Q. Qed.
 Print Assumptions cconj_is_generated_Q.
+
+(* TRANSFER  The model run at Q by the correspondence shards is the rational restriction of the model
+   the theorems are about: Q2R commutes with [value] on every tree in which no square root is taken
+   (no L2Norm / IndicatorLpUnitBall(2) / IndicatorZero in value position; any sq, sr may be plugged in)
+   and with [cconj] on every tree whose RightVectorMult multipliers have nonzero entries. *)
+Theorem value_Q_is_restriction_of_R : forall (sq : QArith_base.Q -> QArith_base.Q) (sr : R -> R) (e : fxQ),
+  sqrt_free e = true -> forall w x,
+  rmap eR (value sq nzero e w x) = value sr nzero (fR e) (map Qreals.Q2R w) (map Qreals.Q2R x).
+Proof. exact value_transfer. Qed.
+Theorem cconj_Q_is_restriction_of_R : forall (e : fxQ), vec_nz e -> forall w,
+  rmap fR (cconj w e) = cconj (map Qreals.Q2R w) (fR e).
+Proof. exact cconj_transfer. Qed.
+Print Assumptions cconj_Q_is_restriction_of_R.
